@@ -31,7 +31,7 @@ namespace occa {
     // Remove ref from device
     if (modeDevice) {
       if (!isWrapped) {
-        modeDevice->bytesAllocated -= size;
+        modeDevice->removeBytesAllocated(size);
       }
 
       modeDevice->removeMemoryRef(this);
